@@ -15,10 +15,27 @@ use std::ops::DerefMut;
 use std::slice::Iter;
 use std::str::FromStr;
 use std::string::ToString;
+#[cfg(rufsm_verif)]
+use crate::verif_sync::atomic::{AtomicU32, Ordering};
+#[cfg(rufsm_verif)]
+use crate::verif_sync::mpsc::{channel, Receiver, Sender};
+#[cfg(rufsm_verif)]
+use crate::verif_sync::thread::JoinHandle;
+#[cfg(rufsm_verif)]
+use crate::verif_sync::{thread, timer};
+#[cfg(rufsm_verif)]
+use crate::verif_sync::{Arc, Mutex};
+#[cfg(rufsm_verif)]
+use std::fmt;
+#[cfg(not(rufsm_verif))]
 use std::sync::atomic::{AtomicU32, Ordering};
+#[cfg(not(rufsm_verif))]
 use std::sync::mpsc::{channel, Receiver, Sender};
+#[cfg(not(rufsm_verif))]
 use std::sync::{Arc, Mutex};
+#[cfg(not(rufsm_verif))]
 use std::thread::JoinHandle;
+#[cfg(not(rufsm_verif))]
 use std::{fmt, thread};
 
 #[cfg(feature = "Debug")]
